@@ -54,6 +54,31 @@ fn main() {
     }
     let seed = std::env::var("VERIF_SEED").ok().and_then(|s| s.parse().ok()).unwrap_or(0u64);
     let tier = Tier { thorough, seed };
+    // engine-level caps: a run that does not finish, or eats the machine, is a machinery exit (2),
+    // never a verdict. (Non-termination of the subject itself is caught inside the explorers by
+    // the step budget and reported as a violation long before this fires.)
+    {
+        let wall_cap = std::env::var("VERIF_WALL_CAP_S").ok().and_then(|s| s.parse().ok()).unwrap_or(if thorough { 5400u64 } else { 900u64 });
+        let rss_cap_kb = std::env::var("VERIF_RSS_CAP_KB").ok().and_then(|s| s.parse().ok()).unwrap_or(40_000_000u64);
+        let name = prop.clone();
+        std::thread::spawn(move || {
+            let start = std::time::Instant::now();
+            loop {
+                std::thread::sleep(std::time::Duration::from_secs(2));
+                if start.elapsed().as_secs() > wall_cap {
+                    eprintln!("MACHINERY-ERROR: {} exceeded its wall-clock cap of {} s; no verdict", name, wall_cap);
+                    std::process::exit(2);
+                }
+                if let Ok(st) = std::fs::read_to_string("/proc/self/statm") {
+                    let pages: u64 = st.split_whitespace().nth(1).and_then(|x| x.parse().ok()).unwrap_or(0);
+                    if pages * 4 > rss_cap_kb {
+                        eprintln!("MACHINERY-ERROR: {} exceeded its memory cap of {} KB; no verdict", name, rss_cap_kb);
+                        std::process::exit(2);
+                    }
+                }
+            }
+        });
+    }
     let code = match prop.as_str() {
         "C01" => rig::props::c01::main(tier, replay),
         "C02" => rig::props::c02::main(tier, replay),
